@@ -312,7 +312,11 @@ impl<'a> Driver<'a> {
                 }
                 let a = self.wal.address(CovKind::True);
                 t.outputs.push(mk_coin(a, 77_000, Denom::Sym, &[]));
-                self.resign(&mut t);
+                // a faucet need not balance: it pays exactly the minimum fee of its new shape
+                for _ in 0..4 {
+                    t.fee = CoinValue(min_fee(&t, self.fee_mult()));
+                    self.resign(&mut t);
+                }
                 (t, "faucet-with-inputs")
             }
             16 => {
@@ -400,7 +404,7 @@ pub const N_MUTATIONS: usize = 19;
 /// every single-transaction mutation once, alone and next to a valid payment (in both orders), against the current state
 pub fn mutation_sweep(d: &mut Driver) {
     for k in 0..N_MUTATIONS {
-        let base = match d.random_pay() { Some(t) => t, None => return };
+        let base = match d.random_pay() { Some(t) => t, None => continue };
         let (m, name) = d.mutate_k(&base, k);
         if name == "same" {
             continue;
